@@ -180,10 +180,10 @@ def run_history(ctx, base, spec, ops, terms, keep):
             if op[0] == "iter":
                 mon.agreement(f"after step {sim.step_no} {op[:2]}")
             s = snapshot()
-            ok = py_wf(s, sim.completed_by_daemon)
+            ok = py_wf(s, sim.just_completed)  # a completion is judged when it happens: an operator may move the node to another group later
             if not ok and len(mon.fired) == before:
                 ctx.fail("C08:malformed-index", f"after step {sim.step_no} {op[:2]} the index is not well formed: {s}", rp)
-            t = csnap(s, ok, sim.completed_by_daemon)
+            t = csnap(s, ok, sim.just_completed)
             if t is not None:
                 terms.append(t)
                 keep.append(("snapshot", spec, [list(o) for o in ops], sim.step_no))
